@@ -95,6 +95,25 @@ CHECKS = {
               "BigNat evaluated through a Java override whose agreement with the TLA+ definitions is self-tested."),
         technique="TLA+/TLC: ForeignOps over BigNat generates scenarios, recorded gadget runs (honest and tampered via H1) validated as traces",
     ),
+    "C08": dict(
+        category="fault_enumeration",
+        text=("PublicInputs.tla defines Encode/Decode for every exposable type (bit, byte, native, emulated elements of the "
+              "secp256k1 fields and the BLS12-381 base field, big integers of declared width, Jubjub points and scalars, "
+              "secp256k1 and BLS12-381 G1 points with the identity flag) over BigNat and Curve (an executable TLA+ model of "
+              "the three curves whose constants are checked against the code's). TLC checks on menus of boundary values "
+              "(identity, 0, m-1, maximal limbs, all limb counts) that Decode(Encode(v)) = v and that no two values share an "
+              "encoding. The driver builds standard-library relations exposing every menu item alone through both exposure "
+              "paths, values computed in-circuit by un-normalised arithmetic, and mixed lists of 0..40 items; it records the "
+              "off-circuit encoder's vector, the vector the circuit itself binds (from its copy constraints), satisfiability "
+              "with the encoder's vector and with every sampled single-position edit {+1, -1, 0/1, +2^64}, and for a subset "
+              "the public-input count stored by setup_vk and the verdicts of the real prove/verify on right, shorter, "
+              "longer and edited vectors. PubIn_Trace requires encoder = Encode(value), exposure = encoder's vector, every "
+              "edit rejected, stored count = total length, verify accepts exactly the right vector."),
+        design_ref="DESIGN.md 4/C08",
+        note=("Not covered: verifying-key identities and accumulators of the verifier gadget, IR value types (zkir publish), "
+              "committed instance column. Edits are sampled positions on long vectors; satisfiability judged by MockProver."),
+        technique="TLA+/TLC: PublicInputs Encode/Decode model checked for round trip and injectivity; recorded exposures and edit verdicts validated as traces",
+    ),
     "C09": dict(
         category="model_checking",
         text=("Self-composition on recorded builder runs: every circuit is synthesised through a hook-free recording "
